@@ -10,6 +10,121 @@ except ImportError:
 PID = 'C01'
 
 
+from .lane import Lane
+import z3
+from mirsym.values import *
+from mirsym.engine import TRUE, FALSE
+from mirsym.models_async import PENDING
+from . import ber
+
+
+class ReplyRouting(Lane):
+    """client side of routing: two operations issued one after the other on the SAME handle (built by the real
+    constructor verif_hooks::ldap_with_queue).  The first one gives up (its timer expires) before the server
+    answers; then the server answers both, in order.  The environment plays driver and server: a reply for ID i is
+    handed to whatever reply sender the request with ID i carried; a receiver that is gone swallows it.  The second
+    operation must return the reply sent under ITS OWN message ID."""
+    name = 'C01.reply_routing'
+
+    def inputs(self):
+        return {'rc1': z3.BitVec('rc1', 8), 'rc2': z3.BitVec('rc2', 8), 'second_timed': bool(self.c.choose(2, 'second_timed'))}
+
+    def execute(self, d):
+        from .streams import poll
+        c = self.c
+        c.assume(d['rc1'] != d['rc2'])
+        pair = c.run_fn('ldap_with_queue', [z3.BitVecVal(7, 32), SetV()])
+        ld = deref(pair[0])
+        registry = {}; order = []
+        reply = lambda rc: Tup([EnumV('Tag', 'StructureTag', [ber.cons(1, 11, [ber.prim(0, 10, [rc]), ber.prim(0, 4, []), ber.prim(0, 4, [])])]), VecV([])])
+        inbox = []          # replies the server has sent, in order: (id, value)
+        phase = {'n': 1}
+
+        def send_env(ctx, t, val):
+            t.sent.append(val)
+            if t.name == deref(ld.fields['tx']).name:
+                v = deref(val); mid = conc(v[0]); registry[mid] = deref(v[4]); order.append(mid)
+            return Ok(UNIT)
+
+        def deliver(rx, oneshot):
+            # the driver routes by ID: each reply goes to the sender filed under its ID; this receiver sees only what is its own
+            while inbox:
+                mid, val = inbox[0]
+                tx = registry.get(mid)
+                if tx is not None and (tx.peer is rx or tx is getattr(rx, 'peer', None)):
+                    inbox.pop(0)
+                    return Ok(val) if oneshot else Some(val)
+                if tx is not None and getattr(tx.peer, 'dropped', False) or phase['n'] == 2 and mid != order[-1] and tx is not None and tx.peer is not rx:
+                    inbox.pop(0); continue           # receiver gone: the driver logs and drops the reply
+                break
+            return PENDING
+
+        def timeout_env(ctx, f):
+            if phase['n'] == 1: return Err(Opaque('Elapsed'))           # the first operation gives up
+            from mirsym.models_async import poll_value
+            r = poll_value(ctx, f.fut, Opaque('Context'))
+            return PENDING if r.variant == 'Pending' else Ok(r.fields[0])
+        c.env = {'send': send_env, 'timeout': timeout_env, 'closed': lambda ctx, f: PENDING,
+                 'recv_oneshot': lambda ctx, f: deliver(f.rx, True), 'recv': lambda ctx, f: deliver(f.rx, False)}
+        tag = lambda: EnumV('Tag', 'StructureTag', [ber.prim(1, 10, ber.bstr('dc=x'))])
+        try:
+            ld.fields['timeout'] = Some(StructV('Duration', [('secs', z3.BitVecVal(1, 64)), ('nanos', z3.BitVecVal(0, 32))]))
+            r1 = poll(c, c.run_fn('Ldap::op_call', [ld, EnumV('LdapOp', 'Single'), tag()]))
+            # the caller of operation 1 is gone; now the server answers it, late - and operation 2 is issued
+            phase['n'] = 2
+            if d['second_timed']:
+                ld.fields['timeout'] = Some(StructV('Duration', [('secs', z3.BitVecVal(9, 64)), ('nanos', z3.BitVecVal(0, 32))]))
+            co2 = c.run_fn('Ldap::op_call', [ld, EnumV('LdapOp', 'Single'), tag()])
+            r2 = poll(c, co2)
+            if len(order) == 2:
+                inbox.extend([(order[0], reply(d['rc1'])), (order[1], reply(d['rc2']))])
+                if r2.variant == 'Pending': r2 = poll(c, co2)
+        finally:
+            c.env = {}
+        return {'r1': r1, 'r2': r2, 'ids': order}
+
+    def oracle(self, d, out):
+        if out[0] == 'panic': return [('no panic', FALSE)]
+        o = out[1]
+        obs = [('two requests were queued under different message IDs', z3.BoolVal(len(o['ids']) == 2 and o['ids'][0] != o['ids'][1]))]
+        r1 = o['r1']
+        e1 = r1.variant == 'Ready' and r1.fields[0].variant == 'Err'
+        obs.append(('the first operation gives up with an error when its timer expires', z3.BoolVal(e1)))
+        r2 = o['r2']
+        if r2.variant != 'Ready':
+            obs.append(('the second operation completes once its own reply has arrived', FALSE)); return obs
+        v = r2.fields[0]
+        obs.append(('the second operation returns a result', z3.BoolVal(v.variant == 'Ok')))
+        if v.variant == 'Ok':
+            res = deref(v.fields[0])
+            rc = deref(res[0]).fields['rc'] if isinstance(res, Tup) else deref(res).fields['rc']
+            obs.append(('...and it is the reply the server sent under ITS message ID, not the late reply to the operation before it', rc == z3.ZeroExt(24, d['rc2'])))
+        return obs
+
+    def replay_by_role(self, cd, obname, out, m):
+        from .scenarios import script, step, BIND, BIND_OK, okres
+        # natively: a timed operation whose reply comes late, then a second operation on the same handle
+        case = script([BIND, {'do': 'delete_given_up', 'dn': 'dc=first', 'ms': 60}, {'do': 'delete', 'dn': 'dc=second'}],
+                      [BIND_OK, {'delay_ms': 250, 'replies': [{'id': 'req', 'op': okres(11, 49)}]}, {'replies': [{'id': 'req', 'op': okres(11, 7)}]}])
+        nj = native([case])[0]; v = nj['value']
+        r1, r2 = step(v, 'delete_given_up'), step(v, 'delete', 0); bad = None
+        if not (isinstance(r2, dict) and r2.get('ok', {}).get('rc') == 7): bad = f'the second operation returned {json.dumps(r2)[:90]} instead of its own reply (rc 7); the first returned {json.dumps(r1)[:60]}'
+        return bool(bad), 'late-reply-misrouted', f'late reply to a given-up operation: {bad}' if bad else None, case, {'native': v['steps']}
+
+    def case(self, cd): return {}
+
+    def summary(self, out, model=None):
+        if out[0] == 'panic': return {'panic': out[1].msg}
+        o = out[1]
+        return {'ids': o['ids'], 'first': o['r1'].variant, 'second': o['r2'].variant}
+
+    def in_summary(self, d, model=None):
+        return {'second_timed': d['second_timed']}
+
+    def regions(self, d, out):
+        return ['timed' if d['second_timed'] else 'untimed']
+
+
 def body(chk):
     quick = chk.tier == 'quick'
     nr, ns = (2, 1) if quick else (4, 3)
@@ -22,6 +137,9 @@ def body(chk):
         # the idle connection: nothing pending, nothing running
         run_lane(chk, driver.DriverStep, (PID, 0, 0), bounds={'pre-state': 'no pending operation and no running search (idle connection)', 'events': 'as above', 'response': 'any ID (incl. 0 and negative), any operation tag <= 30'},
                  selftest=False, need_regions={'C04': ('resp-eof', 'resp-err', 'op-single'), 'C01': ('resp', 'none'), 'C12': ('resp',)}[PID])
+    if PID == 'C01':
+        run_lane(chk, ReplyRouting, (), bounds={'history': 'operation 1 gives up (timer), its reply arrives late; operation 2 on the same handle, timed or not', 'result codes': 'symbolic, distinct'},
+                 selftest=False, variant='hooks', need_regions=('timed', 'untimed'))
     if streams is not None:
         streams.extra_lanes(chk, PID)
     chk.assumptions += driver.ASSUMPTIONS.get(PID, []) + driver.ASSUMPTIONS['all']
